@@ -9,6 +9,7 @@ import (
 	"fmt"
 	"math"
 	"sort"
+	"strings"
 	"time"
 
 	"github.com/ClickHouse/ch-go/proto"
@@ -37,6 +38,7 @@ type Kind struct {
 	ZeroCopy bool                  // WriteColumn chains the column's own memory (default build)
 	Prep     bool                  // contains a Preparable column (LC / Enum)
 	NewNamed func(name string) Col // member of a named tuple (proto.Named); nil for erased-only kinds
+	key      string
 }
 
 func (k *Kind) String() string { return k.Name }
@@ -762,8 +764,12 @@ func TupleOf(names []string, members ...*Kind) *Kind {
 		prep = prep || m.Prep
 	}
 	t := ref.Tuple(names, ts...)
+	key := "tuple:" + strings.Join(names, ",")
+	for _, m := range members {
+		key += "||" + m.Key()
+	}
 	return &Kind{
-		Name: t.Name, T: t, Scalar: "Tuple", Shape: "Tuple", ZeroCopy: zc, Prep: prep,
+		Name: t.Name, T: t, Scalar: "Tuple", Shape: "Tuple", ZeroCopy: zc, Prep: prep, key: key,
 		Value: rapid.Custom(func(rt *rapid.T) ref.Val {
 			out := make([]ref.Val, len(members))
 			for i, m := range members {
@@ -874,4 +880,36 @@ func DrawRows(t *rapid.T, k *Kind, n int) []ref.Val {
 
 func RowCount() *rapid.Generator[int] {
 	return rapid.OneOf(rapid.IntRange(0, 4), rapid.IntRange(0, 4), rapid.IntRange(0, 30), rapid.Just(0), rapid.Just(1))
+}
+
+// Key identifies a kind across processes (for replay files).
+func (k *Kind) Key() string {
+	if k.key != "" {
+		return k.key
+	}
+	return k.Name + "|" + k.Shape + "|" + k.Scalar
+}
+
+// KindByKey finds a kind from its Key (also rebuilds tuple kinds).
+func KindByKey(key string) (*Kind, error) {
+	if rest, ok := strings.CutPrefix(key, "tuple:"); ok {
+		parts := strings.Split(rest, "||")
+		var names []string
+		if parts[0] != "" {
+			names = strings.Split(parts[0], ",")
+		}
+		var ms []*Kind
+		for _, p := range parts[1:] {
+			m, err := KindByKey(p)
+			if err != nil {
+				return nil, err
+			}
+			ms = append(ms, m)
+		}
+		return TupleOf(names, ms...), nil
+	}
+	if k, ok := ByName[key]; ok {
+		return k, nil
+	}
+	return nil, fmt.Errorf("unknown kind %q", key)
 }
